@@ -76,13 +76,140 @@ pub open spec fn present(h: Seq<Handle>, k: u32) -> bool { exists|i: int| 0 <= i
 
 pub open spec fn cdist(a: int, b: int, cap: int) -> int { if a >= b { a - b } else { a - b + cap } }
 
+pub open spec fn nxt(i: int, cap: int) -> int { if i + 1 == cap { 0 } else { i + 1 } }
+
 proof fn lemma_dist(a: usize, b: usize, cap: usize)
-    requires cap >= 2, (cap & (cap - 1) as usize) == 0, a < cap, b < cap,
-        cap <= 0x4000_0000,
+    requires cap >= 2, (cap & (cap - 1) as usize) == 0, a < cap, b < cap, cap <= 0x4000_0000,
     ensures (((a + cap - b) as usize) & (cap - 1) as usize) as int == cdist(a as int, b as int, cap as int),
 {
     assert((((a + cap - b) as usize) & (cap - 1) as usize) == (if a >= b { (a - b) as usize } else { (a + cap - b) as usize })) by (bit_vector)
         requires cap >= 2, (cap & (cap - 1) as usize) == 0, a < cap, b < cap, cap <= 0x4000_0000;
+}
+
+/// chain property with one permitted hole
+pub open spec fn chain_except(h: Seq<Handle>, cap: usize, hole: int) -> bool {
+    forall|i: int, x: int| 0 <= i < cap && 0 <= x < cap && (#[trigger] h[i]).0 != 0 && in_range(home(h[i], cap), i, x) && x != hole
+        ==> (#[trigger] h[x]).0 != 0
+}
+
+/// every occupied slot strictly between hole and j does not need the hole
+pub open spec fn settled(h: Seq<Handle>, cap: usize, hole: int, j: int) -> bool {
+    forall|i: int| 0 <= i < cap && (#[trigger] h[i]).0 != 0 && in_range(nxt(hole, cap as int), j, i)
+        ==> !in_range(home(h[i], cap), i, hole)
+}
+
+pub open spec fn region_full(h: Seq<Handle>, cap: usize, hole: int, j: int) -> bool {
+    forall|x: int| 0 <= x < cap && in_range(nxt(hole, cap as int), j, x) ==> (#[trigger] h[x]).0 != 0
+}
+
+proof fn lemma_home_bound(k: Handle, cap: usize)
+    requires cap >= 2, (cap & (cap - 1) as usize) == 0,
+    ensures 0 <= home(k, cap) < cap,
+{
+    lemma_mask_bound(k.0.wrapping_mul(2654435769u32) as usize, cap);
+}
+
+proof fn lemma_present_after_clear(h0: Seq<Handle>, ind: int, key: Handle)
+    requires unique(h0), 0 <= ind < h0.len(), h0[ind] == key, key.0 != 0,
+    ensures forall|k: u32| k != 0 ==> (#[trigger] present(h0.update(ind, Handle(0)), k) <==> (k != key.0 && present(h0, k))),
+{
+    let h1 = h0.update(ind, Handle(0));
+    assert forall|k: u32| k != 0 implies (#[trigger] present(h1, k) <==> (k != key.0 && present(h0, k))) by {
+        if present(h1, k) {
+            let i = choose|i: int| 0 <= i < h1.len() && (#[trigger] h1[i]).0 == k;
+            assert(i != ind);
+            assert(h0[i].0 == k);
+            if k == key.0 { assert(h0[i] == h0[ind]); assert(false); }
+        }
+        if k != key.0 && present(h0, k) {
+            let i = choose|i: int| 0 <= i < h0.len() && (#[trigger] h0[i]).0 == k;
+            assert(i != ind);
+            assert(h1[i].0 == k);
+        }
+    }
+}
+
+proof fn lemma_present_move(h: Seq<Handle>, hole: int, j: int)
+    requires 0 <= hole < h.len(), 0 <= j < h.len(), hole != j, h[hole].0 == 0, h[j].0 != 0,
+    ensures forall|k: u32| k != 0 ==> (#[trigger] present(h.update(hole, h[j]).update(j, Handle(0)), k) <==> present(h, k)),
+{
+    let h2 = h.update(hole, h[j]).update(j, Handle(0));
+    assert forall|k: u32| k != 0 implies (#[trigger] present(h2, k) <==> present(h, k)) by {
+        if present(h2, k) {
+            let i = choose|i: int| 0 <= i < h2.len() && (#[trigger] h2[i]).0 == k;
+            if i == hole { assert(h[j].0 == k); } else { assert(h[i].0 == k); }
+        }
+        if present(h, k) {
+            let i = choose|i: int| 0 <= i < h.len() && (#[trigger] h[i]).0 == k;
+            if i == j { assert(h2[hole].0 == k); } else { assert(i != hole); assert(h2[i].0 == k); }
+        }
+    }
+}
+
+proof fn lemma_unique_move(h: Seq<Handle>, hole: int, j: int)
+    requires 0 <= hole < h.len(), 0 <= j < h.len(), hole != j, h[hole].0 == 0, h[j].0 != 0, unique(h),
+    ensures unique(h.update(hole, h[j]).update(j, Handle(0))),
+{
+    let h2 = h.update(hole, h[j]).update(j, Handle(0));
+    assert forall|a: int, b: int| 0 <= a < h2.len() && 0 <= b < h2.len() && a != b && (#[trigger] h2[a]).0 != 0
+        implies h2[a] != #[trigger] h2[b] by {
+        let a0 = if a == hole { j } else { a };
+        let b0 = if b == hole { j } else { b };
+        if b != j {
+            assert(h[a0].0 != 0);
+            assert(a0 != b0);
+            assert(h[a0] != h[b0]);
+        }
+    }
+}
+
+/// moving the element at j into the hole keeps the weakened chain (now with the hole at j)
+proof fn lemma_shift_move(h: Seq<Handle>, cap: usize, hole: int, j: int)
+    requires cap >= 2, (cap & (cap - 1) as usize) == 0, h.len() == cap,
+        0 <= hole < cap, 0 <= j < cap, hole != j, h[hole].0 == 0, h[j].0 != 0,
+        chain_except(h, cap, hole),
+        in_range(home(h[j], cap), j, hole),
+    ensures chain_except(h.update(hole, h[j]).update(j, Handle(0)), cap, j),
+{
+    let h2 = h.update(hole, h[j]).update(j, Handle(0));
+    lemma_home_bound(h[j], cap);
+    assert forall|i: int, x: int| 0 <= i < cap && 0 <= x < cap && (#[trigger] h2[i]).0 != 0 && in_range(home(h2[i], cap), i, x) && x != j
+        implies (#[trigger] h2[x]).0 != 0 by {
+        if i == hole {
+            // x in [home, hole) is inside [home, j) and is not the hole
+            assert(in_range(home(h[j], cap), j, x));
+            assert(h[j].0 != 0);
+            assert(h[x].0 != 0);
+        } else {
+            assert(h[i].0 != 0);
+            lemma_home_bound(h[i], cap);
+            if x != hole { assert(h[x].0 != 0); }
+        }
+    }
+}
+
+/// when the scan reaches an empty slot the weakened chain is the full chain
+proof fn lemma_shift_done(h: Seq<Handle>, cap: usize, hole: int, j: int)
+    requires cap >= 2, (cap & (cap - 1) as usize) == 0, h.len() == cap,
+        0 <= hole < cap, 0 <= j < cap, hole != j, h[hole].0 == 0, h[j].0 == 0,
+        chain_except(h, cap, hole), settled(h, cap, hole, j),
+    ensures chain(h, cap),
+{
+    assert forall|i: int, x: int| 0 <= i < cap && 0 <= x < cap && (#[trigger] h[i]).0 != 0 && in_range(home(h[i], cap), i, x)
+        implies (#[trigger] h[x]).0 != 0 by {
+        lemma_home_bound(h[i], cap);
+        if x == hole {
+            // the hole is on i's path: impossible
+            if in_range(nxt(hole, cap as int), j, i) {
+                assert(false);
+            } else {
+                // i lies beyond j, so its path also crosses j, which is empty and is not the hole
+                assert(in_range(home(h[i], cap), i, j));
+                assert(h[j].0 != 0);
+                assert(false);
+            }
+        }
+    }
 }
 
 /// x lies in the cyclic half-open range [a, b) of a ring of any size (a == b is the empty range)
@@ -304,15 +431,14 @@ impl<T> HandleTable<T> {
             }
             return None;
         }
-        proof {
-            let w = choose|i: int| 0 <= i < self.capacity && (#[trigger] self.handles@[i]).0 == key.0;
-            self.lemma_lookup(key, w, ind as int);
-            lemma_occupied_update(self.handles@, ind as int, Handle(0));
-            lemma_exists_empty(self.handles@);
-        }
-        let ghost e0: int = choose|i: int| 0 <= i < self.capacity && (#[trigger] self.handles@[i]).0 == 0;
         let ghost h0 = self.handles@;
         let ghost v0 = self.values@;
+        proof {
+            lemma_occupied_update(h0, ind as int, Handle(0));
+            lemma_exists_empty(h0);
+            lemma_present_after_clear(h0, ind as int, key);
+        }
+        let ghost e0: int = choose|i: int| 0 <= i < self.capacity && (#[trigger] self.handles@[i]).0 == 0;
         self.count -= 1;
         self.handles[ind] = Handle(0);
         let result = self.values[ind].take();
@@ -322,52 +448,94 @@ impl<T> HandleTable<T> {
         let mut hole = ind;
         proof { lemma_mask_step(ind, cap); }
         let mut j = (ind + 1) & mask;
+        proof {
+            assert(chain_except(self.handles@, cap, hole as int)) by {
+                assert forall|i: int, x: int| 0 <= i < cap && 0 <= x < cap && (#[trigger] self.handles@[i]).0 != 0
+                    && in_range(home(self.handles@[i], cap), i, x) && x != hole as int implies (#[trigger] self.handles@[x]).0 != 0 by {
+                    assert(h0[i].0 != 0);
+                    assert(h0[x].0 != 0);
+                }
+            }
+            assert(unique(self.handles@)) by {
+                assert forall|a: int, b: int| 0 <= a < cap && 0 <= b < cap && a != b && (#[trigger] self.handles@[a]).0 != 0
+                    implies self.handles@[a] != #[trigger] self.handles@[b] by {
+                    assert(h0[a].0 != 0);
+                    if b != ind as int { assert(h0[a] != h0[b]); }
+                }
+            }
+        }
         loop
             invariant
                 cap == self.capacity, mask == cap - 1, cap >= 2, cap <= 0x4000_0000, (cap & (cap - 1) as usize) == 0,
-                self.handles@.len() == cap, self.values@.len() == cap,
-                hole < cap, j < cap, j != hole, 0 <= e0 < cap, e0 != hole,
+                self.handles@.len() == cap, self.values@.len() == cap, h0.len() == cap, v0.len() == cap,
+                hole < cap, j < cap, j != hole, 0 <= e0 < cap, e0 != hole as int,
                 self.handles@[e0].0 == 0,
                 self.handles@[hole as int].0 == 0,
                 self.count == occupied(self.handles@), self.count + 1 < cap,
                 forall|i: int| 0 <= i < cap ==> ((#[trigger] self.handles@[i]).0 != 0 <==> self.values@[i].is_some()),
                 unique(self.handles@),
-                // the region strictly between hole and j is occupied
-                forall|x: int| 0 <= x < cap && in_range(hole as int + 1, j as int, x) && hole as int + 1 != cap ==> (#[trigger] self.handles@[x]).0 != 0,
-                // chain holds except through the hole
-                forall|i: int, x: int| 0 <= i < cap && 0 <= x < cap && (#[trigger] self.handles@[i]).0 != 0
-                    && in_range(home(self.handles@[i], cap), i, x) && x != hole as int ==> (#[trigger] self.handles@[x]).0 != 0,
-                // settled elements do not need the hole
-                forall|i: int| 0 <= i < cap && (#[trigger] self.handles@[i]).0 != 0 && in_range(hole as int, j as int, i)
-                    ==> !in_range(home(self.handles@[i], cap), i, hole as int),
-                // same content as the original minus the key
+                region_full(self.handles@, cap, hole as int, j as int),
+                chain_except(self.handles@, cap, hole as int),
+                settled(self.handles@, cap, hole as int, j as int),
                 forall|k: u32| k != 0 ==> (#[trigger] present(self.handles@, k) <==> (k != key.0 && present(h0, k))),
                 forall|i: int, i0: int| 0 <= i < cap && 0 <= i0 < cap && (#[trigger] self.handles@[i]).0 != 0 && self.handles@[i] == #[trigger] h0[i0]
                     ==> self.values@[i] == v0[i0],
+            ensures self.handles@[j as int].0 == 0,
             decreases (if j as int <= e0 { e0 - j as int } else { e0 + cap as int - j as int }),
         {
             let k = self.handles[j];
             if k.0 == 0 {
                 break;
             }
-            let h = (k.0.wrapping_mul(2654435769) as usize) & mask;
-            proof { lemma_mask_bound(k.0.wrapping_mul(2654435769) as usize, cap); lemma_mask_step(j, cap); lemma_dist(j, h, cap); lemma_dist(j, hole, cap); }
-            if ((j + cap - h) & mask) >= ((j + cap - hole) & mask) {
+            let hm = (k.0.wrapping_mul(2654435769) as usize) & mask;
+            proof {
+                lemma_mask_bound(k.0.wrapping_mul(2654435769) as usize, cap);
+                lemma_mask_step(j, cap);
+                lemma_dist(j, hm, cap);
+                lemma_dist(j, hole, cap);
+                // the scan cannot wrap onto the hole: e0 would be inside the full region
+                if nxt(j as int, cap as int) == hole as int {
+                    assert(in_range(nxt(hole as int, cap as int), j as int, e0) || e0 == j as int);
+                    assert(false);
+                }
+            }
+            if ((j + cap - hm) & mask) >= ((j + cap - hole) & mask) {
                 proof {
-                    lemma_occupied_update(self.handles@, hole as int, k);
-                    lemma_occupied_update(self.handles@.update(hole as int, k), j as int, Handle(0));
+                    let h = self.handles@;
+                    assert(in_range(home(h[j as int], cap), j as int, hole as int));
+                    lemma_occupied_update(h, hole as int, k);
+                    lemma_occupied_update(h.update(hole as int, k), j as int, Handle(0));
+                    lemma_present_move(h, hole as int, j as int);
+                    lemma_unique_move(h, hole as int, j as int);
+                    lemma_shift_move(h, cap, hole as int, j as int);
                 }
                 self.handles[hole] = k;
                 let v = self.values[j].take();
                 self.values[hole] = v;
                 self.handles[j] = Handle(0);
                 hole = j;
+            } else {
+                proof {
+                    assert(!in_range(home(self.handles@[j as int], cap), j as int, hole as int));
+                }
             }
             j = (j + 1) & mask;
         }
         proof {
-            assert(chain(self.handles@, cap));
-            assert(final(self)@ =~= old(self)@.remove(key.0));
+            lemma_shift_done(self.handles@, cap, hole as int, j as int);
+            assert(final(self)@ =~= old(self)@.remove(key.0)) by {
+                assert forall|k: u32| final(self)@.dom().contains(k) <==> old(self)@.remove(key.0).dom().contains(k) by {
+                    if k != 0 {
+                        assert(present(self.handles@, k) <==> (k != key.0 && present(h0, k)));
+                    }
+                }
+                assert forall|k: u32| final(self)@.dom().contains(k) implies #[trigger] final(self)@[k] == old(self)@.remove(key.0)[k] by {
+                    let w = choose|i: int| 0 <= i < cap && (#[trigger] self.handles@[i]).0 == k;
+                    assert(present(self.handles@, k));
+                    let w0 = choose|i: int| 0 <= i < cap && (#[trigger] h0[i]).0 == k;
+                    assert(self.handles@[w] == h0[w0]);
+                }
+            }
         }
         result
     }
